@@ -19,6 +19,9 @@ def build(seed):
     # a plain (not nested) struct-of-lists column, as `read_parquet(reject_nesting=...)` leaves it
     st = pa.StructArray.from_arrays([pa.array([[1, 2], [3], [4, 5]]), pa.array([[1., 2.], [3.], [4., 5.]])], names=["p", "q"])
     nf["st"] = pd.Series(st, dtype=pd.ArrowDtype(st.type), index=nf.index)
+    # base columns holding truth values WITH missing entries (nullable boolean, object)
+    nf["ok"] = pd.array([True, None, False], dtype="boolean")
+    nf["okobj"] = pd.Series([True, None, False], dtype=object, index=nf.index)
     return nf
 
 
@@ -68,6 +71,15 @@ PREFIX_OPS = {
     "setitem_quoted_wrong_length": lambda f: f.__setitem__("n.`b c`", [1, 2]),
     "ragged_element": lambda f: f["n"].array.__setitem__(0, {"a": [1.0, 2.0, 3.0], "b c": [1]}),
     "sort_unknown": lambda f: f.sort_values("n.nofield"),
+    "sort_bad_ascending": lambda f: f.sort_values(["n.a", "n.`b c`"], ascending=[True]),
+    "sort_bad_na_position": lambda f: f.sort_values("n.a", na_position="middle"),
+    "sort_raising_key": lambda f: f.sort_values("n.a", key=boom),
+    "sort_bad_kind": lambda f: f.sort_values("n.a", kind="no-such-sort"),
+    "dropna_bad_how": lambda f: f.dropna(subset="n.a", how="sometimes"),
+    "query_bare_bool": lambda f: f.query("ok"),
+    "query_bare_obj": lambda f: f.query("okobj"),
+    "query_not_bool": lambda f: f.query("~ok"),
+    "eval_bare_bool": lambda f: f.eval("ok"),
     "sort_mixed": lambda f: f.sort_values(["n.a", "x"]),
     "dropna_mixed": lambda f: f.dropna(subset=["n.a", "my nest.z"]),
     "dropna_inplace_fail": lambda f: f.dropna(subset=["n.a", "x"], inplace=True),
@@ -107,6 +119,9 @@ PROBES = {
     "sort_values": lambda f: frame_view(f.sort_values("n.`b c`")),
     "dropna": lambda f: frame_view(f.dropna(subset="n.a")),
     "dropna_quoted": lambda f: frame_view(f.dropna(subset="n.`b c`")),
+    "ok_isna": lambda f: [bool(v) for v in f["ok"].isna()] + [bool(v) for v in f["okobj"].isna()],
+    "nest_series_index": lambda f: [export.labels(f["n"].index), export.labels(f["my nest"].index)],
+    "flat_index": lambda f: export.labels(f["n.a"].index),
     "list_lengths": lambda f: [int(v) for v in f["n"].array.list_lengths],
     "count_nested": lambda f: frame_view(__import__("nested_pandas").utils.count_nested(f, "n")),
     "nested_columns": lambda f: list(f.nested_columns),
@@ -136,9 +151,15 @@ def run_history(ctx, names):
             if ("err" in r) != ("err" in r2):
                 ctx.case(f"history.mutation.{nm}", {"prefix": list(names)}, {"ok": "err" in r}, None, {"ok": "err" in r2},
                          features=("mutation", nm), nontrivial=True)
-    target_objs = [("same", nf, fresh), ("copy", nf.copy(), fresh.copy())]
-    for who, obj, ref in target_objs:
-        for pn, pf in PROBES.items():
+    # the object itself first: `DataFrame.copy()` clears pandas' item cache of its SOURCE, which would hide state left there
+    for who in ("same", "copy"):
+        obj, ref = (nf, fresh) if who == "same" else (nf.copy(), fresh.copy())
+        # probes that only LOOK at the object come first (some later probes copy the frame internally, and pandas'
+        # copy() clears the item cache of its source — which would repair state left there before it is looked at)
+        first = ["nest_series_index", "flat_index", "aliases_attr", "ok_isna", "list_lengths", "nested_columns", "data", "all_columns"]
+        order = first + [k for k in PROBES if k not in first]
+        for pn in order:
+            pf = PROBES[pn]
             real = call_real(lambda: pf(obj))
             exp = call_real(lambda: pf(ref))
             real_c = real if "ok" in real else {"err": real.get("err")}
